@@ -73,8 +73,11 @@ class Result(object):
                             "observed": observed, "features": features or {}})
 
     def add_violation(self, v):
+        w_unit = v.get("_unit")
         v = {"clause": v["clause"], "case": json_safe(v.get("case")), "expected": json_safe(v.get("expected")),
              "observed": json_safe(v.get("observed")), "features": json_safe(v.get("features") or {})}
+        if w_unit is not None:
+            v["_unit"] = w_unit          # set by the runner: the work unit whose execution produced the violation
         self.violation_total += 1
         self.violation_counts[v["clause"]] = self.violation_counts.get(v["clause"], 0) + 1
         self._keep(v)
